@@ -523,7 +523,7 @@ FLATE_ASSUME = 'compress/flate is an oracle (Section variables dz / inflate), in
 COMMON_TRUSTED = [
     'extraction: Require Extraction + ExtrOcamlBasic only (bool/option/unit/list/prod/sumbool/sumor mapped to OCaml; N, Z, positive, nat stay inductive); no Extract Constant',
     'hand-written OCaml driver /verif/ocaml (hex, PRNG, digests) and Go harness /verif/harness; python orchestrator /verif/check',
-    'translator /verif/tools/constx (Go constants, validWireCloseCode, the switches of writeFrameHeader / readFrameHeader, readRSV1Illegal, CompressionMode.opts, the checks of readLoop / handleControl, the EOF codes of netConn.read, verifyClientRequest, the decisions of writeFrame, verifyServerResponse / verifySubprotocol / verifyServerExtensions, acceptDeflate / validWindowBits, authenticateOrigin, CloseError.bytesErr / parseClosePayload / writeClose, the two flateContextTakeover functions, compressionOptions.String, the headers set by handshakeRequest and accept -> coq/Gen/*.v; http.StatusSwitchingProtocols is written as 101; header keys are compared after canonicalisation (canon_key, ASCII tokens))',
+    'translator /verif/tools/constx (Go constants, validWireCloseCode, the switches of writeFrameHeader / readFrameHeader, readRSV1Illegal, CompressionMode.opts, the checks of readLoop / handleControl, the EOF codes of netConn.read, verifyClientRequest, the decisions of writeFrame, verifyServerResponse / verifySubprotocol / verifyServerExtensions, acceptDeflate / validWindowBits, authenticateOrigin, CloseError.bytesErr / parseClosePayload / writeClose, the two flateContextTakeover functions, compressionOptions.String, the headers set by handshakeRequest and accept, the separators and loop shapes of headerTokens / websocketExtensions / hasDuplicateParams / selectDeflate / selectSubprotocol -> coq/Gen/*.v; http.StatusSwitchingProtocols is written as 101; header keys are compared after canonicalisation (canon_key, ASCII tokens))',
 ]
 
 WIREIN_RULE = ('wire-in suite: seeded peer byte streams = 1-4 messages (plain / compressed at 5 deflate levels incl. stored and Huffman-only, '
@@ -619,7 +619,7 @@ PROPS = {
         level_text='Theorems: Accept answers 101 iff the request is a valid WebSocket upgrade (declarative predicate) with an authorised origin; otherwise 426/405/400/403 and nothing negotiated; the accept value is '
                    'base64(SHA-1(key ++ GUID)) with Gallina SHA-1 and base64 (RFC vectors by vm_compute, base64 round trip proved); subprotocol = first server-preferred protocol offered. '
                    'Tie: status / hijack / response headers / negotiated options equal the model\'s on every generated request.',
-        level_note='Source tie by translation: C11_response_is_source — status and headers of the answer are those accept (accept.go) writes, in its order and under its conditions (Gen/HeaderCode.v); C11_checks_are_source — the model answers what the chain of checks of verifyClientRequest, translated from accept.go on every run (Gen/AcceptCode.v: same checks, same order, same HTTP status), answers. decision procedure fully modelled; net/http request parsing not modelled.',
+        level_note='Source tie by translation: C11_subprotocol_selection_is_source / C11_tokens_are_source (selectSubprotocol, headerTokens, Gen/ParseCode.v); C11_response_is_source — status and headers of the answer are those accept (accept.go) writes, in its order and under its conditions (Gen/HeaderCode.v); C11_checks_are_source — the model answers what the chain of checks of verifyClientRequest, translated from accept.go on every run (Gen/AcceptCode.v: same checks, same order, same HTTP status), answers. decision procedure fully modelled; net/http request parsing not modelled.',
         technique='Go->Gallina translation of verifyClientRequest and of the response headers of accept + Coq proofs over a Gallina model of accept.go (+ Gallina SHA-1/base64) + differential run through the real Accept',
     ),
     'C12': dict(
@@ -655,7 +655,7 @@ PROPS = {
         level_text='Theorems: the server accepts only the first acceptable offer (no duplicates, only honourable parameters), falls back otherwise, echoes server_no_context_takeover when asked, renders a response '
                    'with nothing but the agreed flags; the client accepts only what it can honour and follows the RESPONSE for the server direction; library-library agreement for all 3x3 modes; per-direction '
                    'compatibility with a foreign endpoint that applies the response; sender and receiver consult the same flag.',
-        level_note='Source tie by translation: C14_mode_opts_is_source (CompressionMode.opts, Gen/FrameCode.v); C14_accept_deflate_is_source, C14_verify_exts_is_source, C14_window_bits_are_source (duplicate guard, guards, flag reset and per-parameter classification of acceptDeflate / verifyServerExtensions with their string literals, Gen/NegoCode.v); C14_reader_takeover_is_source / C14_writer_takeover_is_source (which side\'s flag a direction consults, Gen/TakeoverCode.v); C14_rendering_is_source (compressionOptions.String, Gen/HeaderCode.v). The exchange after an agreement — asymmetric ones included — is run against a reference peer by agree-in / agree-out; the reader / writer theorems it relies on are C01-C03 (flate oracle).',
+        level_note='Source tie by translation: C14_mode_opts_is_source (CompressionMode.opts, Gen/FrameCode.v); C14_accept_deflate_is_source, C14_verify_exts_is_source, C14_window_bits_are_source (duplicate guard, guards, flag reset and per-parameter classification of acceptDeflate / verifyServerExtensions with their string literals, Gen/NegoCode.v); C14_reader_takeover_is_source / C14_writer_takeover_is_source (which side\'s flag a direction consults, Gen/TakeoverCode.v); C14_rendering_is_source (compressionOptions.String, Gen/HeaderCode.v); C14_selection_is_source / C14_offers_are_cut_as_in_source (selectDeflate, websocketExtensions, Gen/ParseCode.v). The exchange after an agreement — asymmetric ones included — is run against a reference peer by agree-in / agree-out; the reader / writer theorems it relies on are C01-C03 (flate oracle).',
         technique='Go->Gallina translation of acceptDeflate / verifyServerExtensions / flateContextTakeover / compressionOptions.String + Coq proofs over a Gallina model of the negotiation (finite mode grid by computation, offers by induction) + differential runs through Accept/Dial + end-to-end exchanges with a reference peer',
     ),
     'C18': dict(
